@@ -84,6 +84,14 @@ Proof.
   rewrite app_nth2 by lia. rewrite Nat.sub_diag. reflexivity.
 Qed.
 
+Lemma filter_seq_pos_lt (f : nat -> bool) c m : c < m -> f c = true ->
+  length (filter f (seq 0 c)) < length (filter f (seq 0 m)).
+Proof.
+  intros Hc Hf. replace m with (c + S (m - S c)) by lia.
+  rewrite seq_app, filter_app. cbn [seq filter plus]. rewrite Hf.
+  rewrite app_length. cbn [length]. lia.
+Qed.
+
 (* ------------------------------------------------------------------------------------------ *)
 (* 1. Sums over duplicate-free lists in an abelian group of exponent 2                         *)
 (* ------------------------------------------------------------------------------------------ *)
@@ -367,3 +375,496 @@ Proof.
   destruct ((length (cols_of s1) =? 0) || (length (rows_of s1) <? length (cols_of s1))); [reflexivity|].
   fold (idx_of s1). destruct (take_ct (idx_of s1) (ct s1)) as [b ct']. reflexivity.
 Qed.
+
+(* ---------- the state after the injections ---------- *)
+Section Tail.
+Variable s1 : st.
+Hypothesis I1 : Inv cw s1.
+Notation cols := (cols_of s1).
+Notation rows := (rows_of s1).
+Notation q := (length (cols_of s1)).
+
+Lemma W1 : WF s1.
+Proof. exact (ml_wf Sy sxor s0 H0 R0 N0 cw s1 I1). Qed.
+Lemma r1 : r s1 = R0.
+Proof. exact (wf_r Sy R0 N0 s1 W1). Qed.
+Lemma n1 : n s1 = N0.
+Proof. exact (wf_n Sy R0 N0 s1 W1). Qed.
+
+Lemma rw_nodup i : i < R0 -> NoDup (nth i (rws s1) []).
+Proof. intros Hi. exact (proj1 (ml_sub Sy sxor s0 H0 R0 N0 cw s1 I1 i Hi)). Qed.
+Lemma rw_sub i c : i < R0 -> In c (nth i (rws s1) []) -> In c (nth i H0 []).
+Proof. intros Hi Hc. exact (proj2 (ml_sub Sy sxor s0 H0 R0 N0 cw s1 I1 i Hi) c Hc). Qed.
+
+Lemma rows_In i : In i rows <-> i < R0 /\ nth i (rws s1) [] <> [].
+Proof.
+  unfold rows_of. rewrite filter_In, in_seq, r1. split.
+  - intros (A & B). split; [lia|]. intros E. rewrite E in B. discriminate B.
+  - intros (A & B). split; [lia|]. destruct (nth i (rws s1) []); [now elim B|reflexivity].
+Qed.
+
+Lemma rows_nodup : NoDup rows.
+Proof. apply NoDup_filter, seq_NoDup. Qed.
+
+Lemma rows_len : length rows <= R0.
+Proof. unfold rows_of. rewrite r1. rewrite <- (seq_length R0 0) at 2. apply filter_len_le. Qed.
+
+Lemma cols_In c : In c cols <-> c < N0 /\ exists i, i < R0 /\ In c (nth i (rws s1) []).
+Proof.
+  unfold cols_of. rewrite filter_In, in_seq, n1.
+  assert (RS : forall i, In i (rows_with s1 c) <-> i < R0 /\ In c (nth i (rws s1) [])).
+  { intros i. apply (rows_with_spec Sy H0 R0 N0 H0_len H0_nodup H0_range H0_deg R_le_N). exact r1. }
+  split.
+  - intros (A & B). split; [lia|]. destruct (rows_with s1 c) as [|i l]; [discriminate B|].
+    exists i. apply RS. now left.
+  - intros (A & i & B). split; [lia|]. apply RS in B. destruct (rows_with s1 c); [destruct B|reflexivity].
+Qed.
+
+Lemma cols_nodup : NoDup cols.
+Proof. apply NoDup_filter, seq_NoDup. Qed.
+
+Lemma rw_cols i : i < R0 -> incl (nth i (rws s1) []) cols.
+Proof.
+  intros Hi c Hc. apply cols_In. split; [apply (H0_range i c Hi); now apply rw_sub|].
+  exists i. split; [exact Hi|exact Hc].
+Qed.
+
+(* ---------- the dense system ---------- *)
+Lemma matA_length : length (matA s1) = R0.
+Proof. unfold matA. rewrite app_length, map_length, repeat_length, r1. pose proof rows_len. lia. Qed.
+
+Lemma getrow_lo k : k < length rows -> getrow (matA s1) k = rowvec s1 cols (nth k rows 0).
+Proof.
+  intros Hk. unfold getrow, matA. rewrite app_nth1 by (now rewrite map_length).
+  apply nth_map_d. exact Hk.
+Qed.
+
+Lemma bit_repeat_false m : forall k c, bit (nth k (repeat (repeat false q) m) []) c = false.
+Proof.
+  induction m as [|m IH]; intros k c.
+  - unfold bit. destruct k; destruct c; reflexivity.
+  - destruct k as [|k]; cbn [repeat nth]; [|apply IH].
+    unfold bit. destruct (Nat.lt_ge_cases c q) as [Hc|Hc].
+    + apply nth_repeat.
+    + apply nth_overflow. now rewrite repeat_length.
+Qed.
+
+Lemma getrow_hi k c : length rows <= k -> bit (getrow (matA s1) k) c = false.
+Proof.
+  intros Hk. unfold getrow, matA. rewrite app_nth2 by (now rewrite map_length). apply bit_repeat_false.
+Qed.
+
+Lemma getrow_len k : k < R0 -> length (getrow (matA s1) k) = q.
+Proof.
+  intros Hk. destruct (Nat.lt_ge_cases k (length rows)) as [Hlo|Hhi].
+  - rewrite getrow_lo by exact Hlo. unfold rowvec. apply map_length.
+  - unfold getrow, matA. rewrite app_nth2 by (now rewrite map_length). rewrite map_length.
+    rewrite (nth_indep _ [] (repeat false q)) by (rewrite repeat_length, r1; lia).
+    rewrite nth_repeat. apply repeat_length.
+Qed.
+
+Lemma matA_WF (b : list (option Sy)) : length b = R0 -> WFs Sy R0 q (Build_sys (matA s1) b).
+Proof. intros Hb. constructor; cbn [sA sb]; [apply matA_length|exact Hb|apply getrow_len]. Qed.
+
+Lemma idx_length : length (idx_of s1) = R0.
+Proof. unfold idx_of. rewrite app_length, seq_length, r1. pose proof rows_len. lia. Qed.
+
+Lemma rhs_length : length (fst (take_ct (idx_of s1) (ct s1))) = R0.
+Proof. rewrite (proj1 (take_ct_length Sy _ _)). apply idx_length. Qed.
+
+Lemma rhs_nth k : k < length rows ->
+  nth k (fst (take_ct (idx_of s1) (ct s1))) None = nth (nth k rows 0) (ct s1) None.
+Proof. intros Hk. unfold idx_of. apply take_ct_prefix; [apply rows_nodup|exact Hk]. Qed.
+
+Lemma nth_rows k : k < length rows -> nth k rows 0 < R0 /\ nth (nth k rows 0) (rws s1) [] <> [].
+Proof. intros Hk. apply rows_In. apply nth_In. exact Hk. Qed.
+
+(* the equations of the non-empty rows, read over the positions of cols *)
+Lemma row_sum_Sy i (X : list Sy) : i < R0 -> (forall j, j < q -> nth j X s0 = cw (nth j cols 0)) ->
+  dot Sy sxor s0 q (rowvec s1 cols i) X = gs cw (nth i (rws s1) []).
+Proof.
+  intros Hi HX. unfold dot, xsum, rowvec.
+  apply (gs_positions Sy sxor s0 sxor_assoc sxor_comm sxor_0_l cw cols (nth i (rws s1) []) (fun j => nth j X s0)
+           cols_nodup (rw_nodup i Hi) (rw_cols i Hi) HX).
+Qed.
+
+Lemma row_sum_bool i (Z : nat -> bool) : i < R0 ->
+  (forall c, c < N0 -> known s1 c = true -> Z c = false) ->
+  bdot q (rowvec s1 cols i) (fun j => Z (nth j cols 0)) = bs Z (nth i H0 []).
+Proof.
+  intros Hi HZ. unfold bdot.
+  rewrite (map_ext (fun c => bit (rowvec s1 cols i) c && Z (nth c cols 0))
+                   (fun j => if bit (rowvec s1 cols i) j then Z (nth j cols 0) else false))
+    by (intros j; destruct (bit (rowvec s1 cols i) j); reflexivity).
+  unfold rowvec.
+  rewrite (gs_positions bool xorb false bx_assoc bx_comm bx_0_l Z cols (nth i (rws s1) []) (fun j => Z (nth j cols 0))
+           cols_nodup (rw_nodup i Hi) (rw_cols i Hi) (fun j _ => eq_refl)).
+  rewrite <- (gs_mem bool xorb false bx_assoc bx_comm bx_0_l Z (nth i H0 []) (nth i (rws s1) [])
+                (H0_nodup i Hi) (rw_nodup i Hi) (fun c => rw_sub i c Hi)).
+  apply gs_ext. intros c Hc. destruct (mem c (nth i (rws s1) [])) eqn:Em; [reflexivity|].
+  apply mem_false in Em. symmetry. apply HZ; [exact (H0_range i c Hi Hc)|].
+  destruct (known s1 c) eqn:Hk; [reflexivity|]. exfalso. apply Em.
+  exact (ml_keep Sy sxor s0 H0 R0 N0 cw s1 I1 i c Hi Hc Hk).
+Qed.
+
+(* the codeword satisfies every non-zero row of the dense system *)
+Lemma cw_sol_nz : sol_nz Sy sxor s0 R0 q (Build_sys (matA s1) (fst (take_ct (idx_of s1) (ct s1)))) (map cw cols).
+Proof.
+  intros k Hk Hnz. cbn [sA] in *.
+  destruct (Nat.lt_ge_cases k (length rows)) as [Hlo|Hhi].
+  - destruct (nth_rows k Hlo) as (Hi & Hne).
+    rewrite getrow_lo by exact Hlo. rewrite row_sum_Sy; [|exact Hi|].
+    + unfold DenseSolveProofs.vb. cbn [sb]. rewrite rhs_nth by exact Hlo.
+      symmetry. exact (ml_roweq Sy sxor s0 H0 R0 N0 cw s1 I1 _ Hi Hne).
+    + intros j Hj. apply nth_map_d. exact Hj.
+  - destruct Hnz as (c & _ & Hc). rewrite getrow_hi in Hc by exact Hhi. discriminate Hc.
+Qed.
+
+Lemma solved_values x : solve Sy sxor s0 R0 q (Build_sys (matA s1) (fst (take_ct (idx_of s1) (ct s1)))) = Some x ->
+  forall j, j < q -> nth j x s0 = cw (nth j cols 0).
+Proof.
+  intros Hs j Hj.
+  destruct (solve_sound_nz Sy sxor s0 sxor_assoc sxor_comm sxor_0_l sxor_nilp R0 q _ x (matA_WF _ rhs_length) Hs) as (_ & Hag).
+  rewrite (Hag (map cw cols) cw_sol_nz j Hj). apply nth_map_d. exact Hj.
+Qed.
+
+Lemma unkt_known (s : st) c : unkt Sy (tab s) c = negb (known s c).
+Proof. unfold unkt, known. destruct (nth c (tab s) None); reflexivity. Qed.
+
+(* ---------- when the rows that are left contain exactly the unknown columns ---------- *)
+Section WithRC.
+Hypothesis HRC : RC s1.
+
+Lemma unknown_in_cols c : c < N0 -> known s1 c = false -> In c cols.
+Proof.
+  intros Hc Hk. destruct (H0_cols c Hc) as (i & Hi & Hin). apply cols_In. split; [exact Hc|].
+  exists i. split; [exact Hi|]. apply HRC; [exact Hi|]. split; [exact Hin|exact Hk].
+Qed.
+
+Lemma cols_unknown c : In c cols -> c < N0 /\ known s1 c = false.
+Proof.
+  intros H. apply cols_In in H. destruct H as (Hc & i & Hi & Hin). split; [exact Hc|].
+  apply (HRC i c Hi) in Hin. apply Hin.
+Qed.
+
+Lemma cols_char : cols = filter (unkt Sy (tab s1)) (seq 0 N0).
+Proof.
+  unfold cols_of at 1. rewrite n1. apply filter_ext_in. intros c Hc. apply in_seq in Hc.
+  rewrite unkt_known.
+  assert (E : In c cols <-> negb (is_nil (rows_with s1 c)) = true).
+  { unfold cols_of. rewrite filter_In, in_seq, n1. split; [intros (_ & X); exact X|intros X; split; [lia|exact X]]. }
+  destruct (known s1 c) eqn:Hk; cbn [negb].
+  - destruct (negb (is_nil (rows_with s1 c))); [|reflexivity].
+    destruct (cols_unknown c (proj2 E eq_refl)) as (_ & X). congruence.
+  - apply E. apply unknown_in_cols; [lia|exact Hk].
+Qed.
+
+Lemma source_pos c : R0 <= c < N0 -> known s1 c = false ->
+  let p := nrep_of s1 + length (filter (unkt Sy (tab s1)) (seq R0 (c - R0))) in
+  p < q /\ nth p cols 0 = c.
+Proof.
+  intros Hc Hk p.
+  assert (Hp : p = length (filter (unkt Sy (tab s1)) (seq 0 c))).
+  { unfold p, nrep_of. rewrite r1. replace c with (R0 + (c - R0)) at 2 by lia.
+    rewrite seq_app, filter_app, app_length. reflexivity. }
+  assert (Hu : unkt Sy (tab s1) c = true) by (rewrite unkt_known, Hk; reflexivity).
+  rewrite Hp, cols_char. split.
+  - apply filter_seq_pos_lt; [lia|exact Hu].
+  - apply filter_seq_pos; [lia|exact Hu].
+Qed.
+
+(* a kernel vector of the parity-check matrix that vanishes on the sources vanishes on the repairs *)
+Lemma stair_zero (Z : nat -> bool) : hker Z -> (forall c, R0 <= c < N0 -> Z c = false) -> forall c, c < R0 -> Z c = false.
+Proof.
+  intros HZ Hsrc c Hc.
+  set (Z' := fun x => if x <? N0 then Z x else false).
+  assert (E : Z' c = false).
+  { apply (ldpc_encode_unique_proof bool xorb false bx_assoc bx_comm bx_0_l bx_nilp R0 H0 Z' (fun _ => false) H0_stair).
+    - intros x Hx. unfold Z'. destruct (Nat.ltb_spec x N0) as [Hlt|Hge]; [apply Hsrc; lia|reflexivity].
+    - intros i Hi. unfold rowsum, xsum.
+      transitivity (fold_right xorb false (map Z (nth i H0 []))); [|exact (HZ i Hi)]. f_equal. apply map_ext_in.
+      intros x Hx. unfold Z'. apply (H0_range i x Hi) in Hx. apply Nat.ltb_lt in Hx. now rewrite Hx.
+    - intros i Hi. unfold rowsum, xsum. apply fold_xorb_zero. reflexivity.
+    - exact Hc. }
+  unfold Z' in E. assert (Hlt : c <? N0 = true) by (apply Nat.ltb_lt; lia). now rewrite Hlt in E.
+Qed.
+
+(* a non-trivial kernel vector of the non-empty rows of the dense system refutes Det *)
+Lemma kernel_not_det (s : st) (z : nat -> bool) : Kmono s s1 -> nontrivial q z ->
+  (forall k, k < length rows -> bdot q (rowvec s1 cols (nth k rows 0)) z = false) -> ~ Det s.
+Proof.
+  intros KM (j & Hj & Hzj) Hker D.
+  set (Z := fun c => if mem c cols then z (idx c cols) else false).
+  assert (HZ1 : forall c, c < N0 -> known s1 c = true -> Z c = false).
+  { intros c Hc Hk. unfold Z. destruct (mem c cols) eqn:Em; [|reflexivity].
+    apply mem_In in Em. destruct (cols_unknown c Em) as (_ & X). congruence. }
+  assert (HZ2 : forall j', j' < q -> Z (nth j' cols 0) = z j').
+  { intros j' Hj'. unfold Z. assert (Em : mem (nth j' cols 0) cols = true) by (apply mem_In, nth_In; exact Hj').
+    rewrite Em. now rewrite (idx_nth cols cols_nodup j' Hj'). }
+  assert (HZ3 : hker Z).
+  { intros i Hi. change (bs Z (nth i H0 []) = false). rewrite <- (row_sum_bool i Z Hi HZ1).
+    rewrite (bdot_ext q (rowvec s1 cols i) (rowvec s1 cols i) _ z) by (intros c Hc; now rewrite HZ2).
+    destruct (nth i (rws s1) []) as [|y l] eqn:Er.
+    - apply bdot_zero. intros c Hc. unfold bit, rowvec.
+      rewrite (nth_map_d (fun c0 => mem c0 (nth i (rws s1) [])) cols c 0 false Hc). rewrite Er. reflexivity.
+    - assert (Hin : In i rows) by (apply rows_In; split; [exact Hi|rewrite Er; discriminate]).
+      destruct (In_nth rows i 0 Hin) as (k & Hk & Ek). rewrite <- Ek. apply Hker. exact Hk. }
+  assert (Hin : In (nth j cols 0) cols) by (apply nth_In; exact Hj).
+  destruct (cols_unknown _ Hin) as (HcN & _).
+  assert (Hsrc : forall c, R0 <= c < N0 -> Z c = false).
+  { apply (D Z HZ3). intros c Hc Hk. apply HZ1; [exact Hc|]. apply KM. exact Hk. }
+  assert (E : Z (nth j cols 0) = false).
+  { destruct (Nat.lt_ge_cases (nth j cols 0) R0) as [Hlt|Hge]; [apply (stair_zero Z HZ3 Hsrc); exact Hlt|apply Hsrc; lia]. }
+  rewrite HZ2 in E by exact Hj. congruence.
+Qed.
+
+(* fewer non-empty rows than unknowns: a non-trivial kernel vector exists *)
+Lemma few_rows_kernel : length rows < q ->
+  exists z, nontrivial q z /\ forall k, k < length rows -> bdot q (rowvec s1 cols (nth k rows 0)) z = false.
+Proof.
+  intros Hlt.
+  set (p := length rows). set (A' := map (rowvec s1 cols) rows).
+  assert (GR : forall k, k < p -> getrow A' k = rowvec s1 cols (nth k rows 0)).
+  { intros k Hk. unfold getrow, A'. apply nth_map_d. exact Hk. }
+  assert (W : WFs bool p q (hsys p A')).
+  { apply hsys_WF; [unfold A'; apply map_length|]. intros k Hk. rewrite GR by exact Hk. unfold rowvec. apply map_length. }
+  destruct (solve bool xorb false p q (hsys p A')) as [x|] eqn:E.
+  - exfalso. unfold solve in E.
+    destruct (triangularize bool xorb false p (seq 0 q) (hsys p A')) as [y'|] eqn:Et; [|discriminate E].
+    assert (HL0 : Lower bool p (hsys p A') 0) by (intros k c Hc; lia).
+    assert (HD0 : Diag bool (hsys p A') 0) by (intros c Hc; lia).
+    assert (Hq0 : 0 + q <= q) by lia.
+    destruct (triangularize_spec bool xorb false bx_assoc bx_comm bx_0_l bx_nilp p q q 0 (hsys p A') y' W HL0 HD0 Hq0 Et)
+      as (_ & _ & _ & _ & Hp).
+    assert (0 + q <= p) by (apply Hp; lia). lia.
+  - destruct (solve_none_kernel bool xorb false p q (hsys p A') W E) as (z & Hnz & Hk).
+    exists z. split; [exact Hnz|]. intros k Hkp. rewrite <- GR by exact Hkp. apply (Hk k Hkp).
+Qed.
+
+Lemma solve_none_rows_kernel (b : list (option Sy)) : length b = R0 ->
+  solve Sy sxor s0 R0 q (Build_sys (matA s1) b) = None ->
+  exists z, nontrivial q z /\ forall k, k < length rows -> bdot q (rowvec s1 cols (nth k rows 0)) z = false.
+Proof.
+  intros Hb E.
+  destruct (solve_none_kernel Sy sxor s0 R0 q _ (matA_WF b Hb) E) as (z & Hnz & Hk).
+  exists z. split; [exact Hnz|]. intros k Hkp. rewrite <- getrow_lo by exact Hkp.
+  apply (Hk k). pose proof rows_len. lia.
+Qed.
+
+(* the solver succeeds: every kernel vector that vanishes on the known columns vanishes everywhere *)
+Lemma solve_some_det (s : st) (b : list (option Sy)) x : length b = R0 ->
+  (forall z, hker z -> (forall c, c < N0 -> known s c = true -> z c = false) -> forall c, known s1 c = true -> z c = false) ->
+  solve Sy sxor s0 R0 q (Build_sys (matA s1) b) = Some x -> Det s.
+Proof.
+  intros Hb KD E z Hz Hv c Hc.
+  pose proof (KD z Hz Hv) as Hv1.
+  destruct (known s1 c) eqn:Hk; [apply Hv1; exact Hk|].
+  assert (Hin : In c cols) by (apply unknown_in_cols; [lia|exact Hk]).
+  destruct (In_nth cols c 0 Hin) as (j & Hj & Ej).
+  assert (Kz : kernel R0 q (matA s1) (fun j => z (nth j cols 0))).
+  { intros k Hk'. destruct (Nat.lt_ge_cases k (length rows)) as [Hlo|Hhi].
+    - destruct (nth_rows k Hlo) as (Hi & _). rewrite getrow_lo by exact Hlo.
+      rewrite (row_sum_bool _ z Hi (fun c' _ Hk'' => Hv1 c' Hk'')). exact (Hz _ Hi).
+    - apply bdot_zero. intros c' _. now rewrite getrow_hi by exact Hhi. }
+  pose proof (solve_some_no_kernel Sy sxor s0 R0 q _ x (matA_WF b Hb) E _ Kz j Hj) as X.
+  cbv beta in X. now rewrite Ej in X.
+Qed.
+End WithRC.
+
+(* ---------- the exits ---------- *)
+Variable s : st.
+Hypothesis KM : Kmono s s1.
+Hypothesis KD : forall z, hker z -> (forall c, c < N0 -> known s c = true -> z c = false) ->
+                forall c, known s1 c = true -> z c = false.
+Hypothesis HX : iscomp s1 \/ RC s1.
+
+Definition Post (o : outcome Sy) : Prop :=
+  (forall c v, nth c (tab (o_st o)) None = Some v -> v = cw c) /\
+  Kmono s1 (o_st o) /\
+  (forall c, known s1 c = true -> nth c (tab (o_st o)) None = nth c (tab s1) None) /\
+  (o_ok o = true <-> iscomp (o_st o)) /\
+  (iscomp (o_st o) <-> Det s).
+
+Lemma comp_det : iscomp s1 -> Det s.
+Proof. intros C z Hz Hv c Hc. apply (KD z Hz Hv). apply C. exact Hc. Qed.
+
+Lemma with_ct_WF ct' : length ct' = R0 -> WF (with_ct s1 ct').
+Proof.
+  intros Hl. destruct W1 as [Wr Wn Wrws Wunk Wenc Wct Wtab Wfnd Wcur].
+  constructor; unfold with_ct; cbn [r n rws unk enc ct tab fnd]; try assumption.
+Qed.
+
+Lemma give_up_final (s2 : st) : WF s2 -> tab s2 = tab s1 -> (Det s -> iscomp s1) ->
+  exists o, give_up s2 = Some o /\ Post o.
+Proof.
+  intros W2 Et HD. unfold give_up.
+  pose proof (is_complete_spec Sy H0 R0 N0 H0_len R_le_N s2 W2) as X.
+  destruct (is_complete s2) as [b sx]. destruct X as (_ & Et' & _ & _ & _ & _ & Hb).
+  eexists. split; [reflexivity|]. unfold Post. cbn [o_st o_ok].
+  assert (E : tab sx = tab s1) by congruence.
+  assert (K : forall c, known sx c = known s1 c) by (apply known_tab_eq; exact E).
+  assert (C : iscomp sx <-> iscomp s1).
+  { split; apply iscomp_tab_eq; congruence. }
+  split; [|split; [|split; [|split]]].
+  - rewrite E. exact (ml_tab Sy sxor s0 H0 R0 N0 cw s1 I1).
+  - intros c Hc. now rewrite K.
+  - intros c _. now rewrite E.
+  - rewrite Hb, C. split; apply iscomp_tab_eq; congruence.
+  - rewrite C. split; [apply comp_det|exact HD].
+Qed.
+
+Definition tbx (x : list Sy) : list (option Sy) :=
+  write_back s0 (map (fun i => r s1 + i) (seq 0 (N0 - R0))) x (nrep_of s1) (tab s1).
+
+Lemma tbx_nth x c : nth c (tbx x) None =
+  if (R0 <=? c) && (c <? N0) then
+    match nth c (tab s1) None with
+    | Some v => Some v
+    | None => Some (nth (nrep_of s1 + length (filter (unkt Sy (tab s1)) (seq R0 (c - R0)))) x s0)
+    end
+  else nth c (tab s1) None.
+Proof.
+  unfold tbx. rewrite r1, map_add_seq.
+  rewrite write_back_spec by (rewrite (wf_tab Sy R0 N0 s1 W1); lia).
+  replace (R0 + (N0 - R0)) with N0 by lia. reflexivity.
+Qed.
+
+Lemma solved_final x ct' :
+  (forall c, R0 <= c < N0 -> known s1 c = false ->
+     nth (nrep_of s1 + length (filter (unkt Sy (tab s1)) (seq R0 (c - R0)))) x s0 = cw c) ->
+  Det s ->
+  Post {| o_st := mk (r s1) (n s1) (rws s1) (unk s1) (enc s1) ct' (tbx x) (fnd s1); o_ok := true; o_solved := true |}.
+Proof.
+  intros VAL D. unfold Post. cbn [o_st o_ok tab].
+  assert (Kn : forall c, known s1 c = true -> nth c (tbx x) None = nth c (tab s1) None).
+  { intros c Hk. rewrite tbx_nth. unfold known in Hk. destruct (nth c (tab s1) None); [|discriminate Hk].
+    destruct ((R0 <=? c) && (c <? N0)); reflexivity. }
+  assert (C : iscomp (mk (r s1) (n s1) (rws s1) (unk s1) (enc s1) ct' (tbx x) (fnd s1))).
+  { intros c Hc. unfold known. cbn [tab]. rewrite tbx_nth.
+    replace ((R0 <=? c) && (c <? N0)) with true.
+    - destruct (nth c (tab s1) None); reflexivity.
+    - symmetry. apply andb_true_iff. split; [apply Nat.leb_le; lia|apply Nat.ltb_lt; lia]. }
+  split; [|split; [|split; [|split]]].
+  - intros c v. rewrite tbx_nth. destruct ((R0 <=? c) && (c <? N0)) eqn:Er.
+    + apply andb_true_iff in Er. destruct Er as (Er1 & Er2). apply Nat.leb_le in Er1. apply Nat.ltb_lt in Er2.
+      destruct (nth c (tab s1) None) as [w|] eqn:Ew.
+      * intros E. injection E as <-. exact (ml_tab Sy sxor s0 H0 R0 N0 cw s1 I1 c w Ew).
+      * intros E. injection E as <-. apply VAL; [lia|]. unfold known. now rewrite Ew.
+    + exact (ml_tab Sy sxor s0 H0 R0 N0 cw s1 I1 c v).
+  - intros c Hk. unfold known. cbn [tab]. rewrite (Kn c Hk). exact Hk.
+  - exact Kn.
+  - split; [intros _; exact C|reflexivity].
+  - split; [intros _; exact D|intros _; exact C].
+Qed.
+
+Lemma tail_spec : exists o, ml_tail (N0 - R0) s1 = Some o /\ Post o.
+Proof.
+  unfold ml_tail.
+  destruct ((q =? 0) || (length rows <? q)) eqn:Ec.
+  - apply (give_up_final s1 W1 eq_refl).
+    destruct HX as [C|HRC]; [intros _; exact C|].
+    apply orb_true_iff in Ec. destruct Ec as [Ec|Ec].
+    + intros _ c Hc. destruct (known s1 c) eqn:Hk; [reflexivity|]. exfalso.
+      apply Nat.eqb_eq in Ec. pose proof (unknown_in_cols HRC c ltac:(lia) Hk) as Hin.
+      destruct cols; [destruct Hin|discriminate Ec].
+    + intros D. exfalso. apply Nat.ltb_lt in Ec.
+      destruct (few_rows_kernel Ec) as (z & Hnz & Hk).
+      exact (kernel_not_det HRC s z KM Hnz Hk D).
+  - destruct (solve Sy sxor s0 (r s1) q (Build_sys (matA s1) (fst (take_ct (idx_of s1) (ct s1))))) as [x|] eqn:E;
+      rewrite r1 in E.
+    + eexists. split; [reflexivity|].
+      apply (solved_final x).
+      * intros c Hc Hk. destruct HX as [C|HRC]; [rewrite (C c Hc) in Hk; discriminate Hk|].
+        destruct (source_pos HRC c Hc Hk) as (Hp & Ep). cbv zeta in Hp, Ep.
+        rewrite (solved_values x E _ Hp). now rewrite Ep.
+      * destruct HX as [C|HRC]; [exact (comp_det C)|].
+        exact (solve_some_det HRC s _ x rhs_length KD E).
+    + apply give_up_final.
+      * apply with_ct_WF. rewrite (proj2 (take_ct_length Sy _ _)). exact (wf_ct Sy R0 N0 s1 W1).
+      * reflexivity.
+      * destruct HX as [C|HRC]; [intros _; exact C|]. intros D. exfalso.
+        destruct (solve_none_rows_kernel _ rhs_length E) as (z & Hnz & Hk).
+        exact (kernel_not_det HRC s z KM Hnz Hk D).
+Qed.
+End Tail.
+
+(* ---------- the theorems ---------- *)
+Section Main.
+Variable fuel : nat. Variable perm : list nat. Variable s : st.
+Hypothesis HPre : Pre cw s.
+Hypothesis Hfuel : fuel > N0.
+Hypothesis Hperm1 : forall c, c < R0 -> In c perm.
+Hypothesis Hperm2 : forall c, In c perm -> c < R0.
+
+Lemma finish_main : exists s1 o, ml_finish sxor s0 fuel perm s = Some o /\
+  Kmono s s1 /\ (forall c, known s c = true -> nth c (tab s1) None = nth c (tab s) None) /\ Post s1 s o.
+Proof.
+  assert (Hf : N0 < fuel) by lia.
+  destruct (reduce_main fuel perm s HPre Hf Hperm1 Hperm2) as (s1 & Hs1 & I1 & KM & T & X & KD).
+  destruct (tail_spec s1 I1 s KM KD X) as (o & Ho & P).
+  exists s1, o. split; [|split; [exact KM|split; [exact T|exact P]]].
+  rewrite ml_finish_eq, Hs1.
+  assert (W : WF s) by apply HPre.
+  rewrite (wf_r Sy R0 N0 s W), (wf_n Sy R0 N0 s W). exact Ho.
+Qed.
+
+(* F1 *)
+Theorem ml_finish_total : exists o, ml_finish sxor s0 fuel perm s = Some o.
+Proof. destruct finish_main as (s1 & o & Ho & _). exists o. exact Ho. Qed.
+
+(* F2: never a wrong symbol; knowledge only grows; received/decoded symbols are kept *)
+Theorem ml_finish_values o : ml_finish sxor s0 fuel perm s = Some o ->
+  (forall c v, nth c (tab (o_st o)) None = Some v -> v = cw c) /\
+  Kmono s (o_st o) /\
+  (forall c, known s c = true -> nth c (tab (o_st o)) None = nth c (tab s) None).
+Proof.
+  intros Ho. destruct finish_main as (s1 & o' & Ho' & KM & T & (P1 & P2 & P3 & _)).
+  rewrite Ho in Ho'. injection Ho' as <-.
+  split; [exact P1|]. split.
+  - intros c Hc. apply P2, KM, Hc.
+  - intros c Hc. rewrite (P3 c (KM c Hc)). exact (T c Hc).
+Qed.
+
+(* F3: reports OK iff all sources are available iff they were uniquely determined *)
+Theorem ml_finish_complete_iff o : ml_finish sxor s0 fuel perm s = Some o ->
+  (o_ok o = true <-> iscomp (o_st o)) /\ (iscomp (o_st o) <-> Det s).
+Proof.
+  intros Ho. destruct finish_main as (s1 & o' & Ho' & _ & _ & (_ & _ & _ & P4 & P5)).
+  rewrite Ho in Ho'. injection Ho' as <-.
+  split; [exact P4|exact P5].
+Qed.
+End Main.
+
+(* F4: Det only depends on the set of known columns *)
+Corollary Det_known_ext (sa sb : st) : (forall c, known sa c = known sb c) -> (Det sa <-> Det sb).
+Proof.
+  intros E. unfold Det. split; intros D z Hz Hv c Hc; apply (D z Hz); try exact Hc; intros c' Hc' Hk; apply Hv; try exact Hc'.
+  - now rewrite <- E.
+  - now rewrite E.
+Qed.
+
+(* order / API independence of the outcome: two runs from states with the same known columns
+   (any fuel, any injection order) agree on success *)
+Corollary ml_finish_outcome_indep fuel1 fuel2 perm1 perm2 (sa sb : st) o1 o2 :
+  Pre cw sa -> Pre cw sb -> fuel1 > N0 -> fuel2 > N0 ->
+  (forall c, c < R0 -> In c perm1) -> (forall c, In c perm1 -> c < R0) ->
+  (forall c, c < R0 -> In c perm2) -> (forall c, In c perm2 -> c < R0) ->
+  (forall c, known sa c = known sb c) ->
+  ml_finish sxor s0 fuel1 perm1 sa = Some o1 -> ml_finish sxor s0 fuel2 perm2 sb = Some o2 ->
+  o_ok o1 = o_ok o2.
+Proof.
+  intros Pa Pb Hf1 Hf2 A1 A2 B1 B2 E H1 H2.
+  destruct (ml_finish_complete_iff fuel1 perm1 sa Pa Hf1 A1 A2 o1 H1) as (X1 & Y1).
+  destruct (ml_finish_complete_iff fuel2 perm2 sb Pb Hf2 B1 B2 o2 H2) as (X2 & Y2).
+  pose proof (Det_known_ext sa sb E) as D.
+  destruct (o_ok o1) eqn:E1; destruct (o_ok o2) eqn:E2; try reflexivity.
+  - assert (T : false = true) by (apply X2, Y2, D, Y1, X1; reflexivity). discriminate T.
+  - assert (T : false = true) by (apply X1, Y1, D, Y2, X2; reflexivity). discriminate T.
+Qed.
+End MLF.
+
+Print Assumptions ml_finish_total.
+Print Assumptions ml_finish_values.
+Print Assumptions ml_finish_complete_iff.
+Print Assumptions Det_known_ext.
+Print Assumptions ml_finish_outcome_indep.
